@@ -1,5 +1,6 @@
 """In-memory database over qfacts output + shared analyses (call graph, CFG,
 dominators, flow-insensitive data dependence, type containment)."""
+import os
 import re
 from collections import defaultdict, deque
 
@@ -774,6 +775,9 @@ class MonoGraph:
 #   ('discr', base) ('phi', [..]) ('cycle',) ('undef', l) ('other', text) ('static', path)
 # References and dereferences are transparent.
 
+# how far origin expressions are followed through definitions before being cut to ('deep',)
+DEPTH = int(os.environ.get("QV_EXPR_DEPTH", "20"))
+
 TRANSPARENT_CALLS = re.compile(
     r"(as std::ops::Deref>::deref$|as std::ops::DerefMut>::deref_mut$|as std::clone::Clone>::clone$|as std::borrow::Borrow<.*>>::borrow$"
     r"|as std::convert::AsRef<.*>>::as_ref$|^<T as std::convert::From<T>>::from$|^<T as std::convert::Into<U>>::into$"
@@ -789,7 +793,7 @@ def _is_whole(p):
     return not p["pr"]
 
 
-def fn_expr_local(fn, l, depth=14, seen=frozenset()):
+def fn_expr_local(fn, l, depth=DEPTH, seen=frozenset()):
     if depth <= 0:
         return ("deep",)
     if l in seen:
@@ -831,7 +835,7 @@ def fn_expr_local(fn, l, depth=14, seen=frozenset()):
     return ("phi", outs)
 
 
-def fn_expr_operand(fn, op, depth=14, seen=frozenset()):
+def fn_expr_operand(fn, op, depth=DEPTH, seen=frozenset()):
     if op is None:
         return ("undef", -1)
     k = op.get("k")
@@ -856,7 +860,7 @@ def fn_expr_operand(fn, op, depth=14, seen=frozenset()):
     return fn_expr_place(fn, p, depth, seen)
 
 
-def fn_expr_place(fn, p, depth=14, seen=frozenset()):
+def fn_expr_place(fn, p, depth=DEPTH, seen=frozenset()):
     e = fn_expr_local(fn, p["l"], depth, seen)
     for pr in p["pr"]:
         if pr == "*":
@@ -895,7 +899,7 @@ def _field(e, name, variant):
     return ("field", e, name, variant)
 
 
-def fn_expr_rvalue(fn, rv, depth=14, seen=frozenset()):
+def fn_expr_rvalue(fn, rv, depth=DEPTH, seen=frozenset()):
     k = rv["k"]
     if k == "use":
         return fn_expr_operand(fn, rv["o"], depth, seen)
